@@ -19,6 +19,14 @@ EXPLANATION = (
 ASSUMPTIONS = ['numeric value of U and the factor-two accuracy of the B-tree estimate depend on std internals (not decided)',
                'derived impls are covered by C05 (corpus) and the compile witnesses of C17/C12']
 
+SIZED_CTORS = {'with_capacity': 0, 'from_elem': 1, 'repeat': 1, 'new_uninit_slice': 0, 'new_zeroed_slice': 0, 'with_capacity_in': 0}
+
+
+def _input_dependent(a):
+    from .c09 import tainted_atoms
+    return bool(tainted_atoms(strip(a)))
+
+
 ALLOC_MUT = {'reserve_exact', 'reserve', 'resize', 'try_reserve', 'try_reserve_exact', 'extend_from_slice', 'resize_with'}
 
 
@@ -181,6 +189,22 @@ def check_hooks(out, facts):
                         if not okh:
                             bad.append('hook argument %s is not the size estimate of collecting %s elements into %s' % (sym.vstr(h), cs, ty))
                     last_hook = None
+                elif e[0] == 'ALLOC' and (e[1] in SIZED_CTORS or (len(e) > 7 and e[7] == 'generic')):
+                    # a sized constructor (with_capacity, vec![x; n], zeroed(n), ...): n elements of the container's
+                    # element type must have been announced as n * size_of::<elem>() (n itself for byte containers)
+                    idx = SIZED_CTORS.get(e[1], None)
+                    args = e[3]
+                    if idx is None:
+                        ints = [k for k, a in enumerate(args) if _input_dependent(a)]
+                        idx = ints[0] if ints else None
+                    if idx is not None and idx < len(args) and _input_dependent(args[idx]):
+                        sinks_here += 1
+                        n = sym.vstr(args[idx])
+                        byte_container = any(b in (e[2] or '') for b in ('BytesMut', 'bytes::Bytes', 'String'))
+                        okh = last_hook is not None and (_is_mul_of(last_hook[1], n, None) or (byte_container and sym.vstr(last_hook[1]) == n))
+                        if not okh:
+                            bad.append('%s(%s) is not preceded by on_before_alloc_mem(%s%s)' % (e[1], n, n, '' if byte_container else ' * size_of::<elem>()'))
+                        last_hook = None
                 elif e[0] == 'MUTCALL' and e[1] == 'split_to':
                     sinks_here += 1
                     if last_hook is None or sym.vstr(last_hook[1]) != sym.vstr(e[3][1]):
@@ -200,8 +224,8 @@ def check_hooks(out, facts):
         n_sinks += sinks_here
         if sinks_here:
             tracked = _self_is_marker(f, markers)
-            if tracked is False and not bad:
-                continue
+            if tracked is False:
+                continue        # not a memory-tracking type: outside the property
             out.ob('R12.2', key, not bad, '; '.join(sorted(set(bad))[:3]), f['loc'], sample={'term': sym.tstr(ta)[:260]})
         else:
             # R12.5: no sink, no hook
@@ -319,5 +343,8 @@ def run(cx, out):
         check_hooks(out, facts)
         check_marker_bounds(out, facts)
         check_btree(out, facts)
+    # premise: allocation announcements reach the tracker through every provided wrapper (C08 R08.1 forwarding)
+    from . import shared
+    shared.premises(cx, out, {'c08': {'R08.1'}})
     from . import positive
     positive.check(cx, out, 'C12')
